@@ -9,7 +9,7 @@
 (* One action per kernel-atomic step or critical section:                  *)
 (*   kernel : KPut KTrunc KWrite KCreate KDel KRename KRmDir KMkDir         *)
 (*   watcher: WWake WLock WRead WTake WReadFile WSched WSchedRm WUnlock     *)
-(*   main   : MTick MPrep MReg MList MScanRead MScanSched MScanDone MSwap    *)
+(*   main   : MTick MPrep MReg MRegDone MList MScanRead MScanSched MScanDone *)
 (*            MApply MRun                                                  *)
 (* A file's content is read when its event is PROCESSED, not when the      *)
 (* event was generated; the inotify queue keeps order and may coalesce an  *)
@@ -151,14 +151,21 @@ AfterPrep == IF started THEN "swap" ELSE "ctordone"
 MPrep == /\ mpc = "prep" /\ mpc' = IF dirGen = 0 THEN AfterPrep ELSE "reg"
          /\ UNCHANGED <<mbatch, mscan, mcontent, watchGen, inq, dirDeleted, started, evLock, queue, active>> /\ MUnch
 \* under event_loop_mutex_: inotify_add_watch (fails when the directory vanished meanwhile), then list the directory
+\* The kernel-side registration is its own step: the hook point that reports it ("Reg") fires later, and whatever is
+\* written to the directory in between already produces events.
 MReg == /\ mpc = "reg" /\ evLock = "none"
-        /\ IF dirGen = 0 THEN mpc' = AfterPrep /\ UNCHANGED <<evLock, watchGen, inq, mscan>>
-           ELSE /\ evLock' = "m" /\ watchGen' = dirGen /\ inq' = <<>> /\ mpc' = "list" /\ UNCHANGED mscan
+        /\ IF dirGen = 0 THEN mpc' = "regf" /\ UNCHANGED <<evLock, watchGen, inq, mscan>>
+           ELSE /\ evLock' = "m" /\ watchGen' = dirGen /\ inq' = <<>> /\ mpc' = "regd" /\ UNCHANGED mscan
         /\ UNCHANGED <<mbatch, mcontent, dirDeleted, started, queue, active>> /\ MUnch
 \* transient failure of the registration (inotify_init1 / inotify_add_watch / epoll_ctl: EMFILE, ENOSPC, ENOMEM): nothing is
 \* registered, the flag stays raised, a later tick tries again.  Not part of MLoop: an environment fault, budgeted by users
-MRegFail == /\ mpc = "reg" /\ evLock = "none" /\ mpc' = AfterPrep
+MRegFail == /\ mpc = "reg" /\ evLock = "none" /\ mpc' = "regf"
             /\ UNCHANGED <<mbatch, mscan, mcontent, watchGen, inq, dirDeleted, started, evLock, queue, active>> /\ MUnch
+\* the outcome is reported (hook point), then the directory is listed / the attempt is given up
+MRegDone == /\ mpc = "regd" /\ mpc' = "list"
+            /\ UNCHANGED <<mbatch, mscan, mcontent, watchGen, inq, dirDeleted, started, evLock, queue, active>> /\ MUnch
+MRegGiveUp == /\ mpc = "regf" /\ mpc' = AfterPrep
+              /\ UNCHANGED <<mbatch, mscan, mcontent, watchGen, inq, dirDeleted, started, evLock, queue, active>> /\ MUnch
 \* readDir, sorted: the files there NOW (changes after the registration are also reported as events)
 MList == /\ mpc = "list" /\ mpc' = "scan"
          /\ mscan' = SortedSeq({n \in Names : dirGen # 0 /\ files[n] # None /\ ~IsDot(n)})
@@ -184,7 +191,7 @@ MStop == /\ mpc = "idle" /\ started /\ ~stopping /\ stopping' = TRUE /\ mpc' = "
          /\ UNCHANGED <<mbatch, mscan, mcontent, watchGen, inq, dirDeleted, started, evLock, queue, active, fsvars, wvars>>
 MJoined == /\ mpc = "joining" /\ wpc = "exited" /\ mpc' = "gone"
            /\ UNCHANGED <<mbatch, mscan, mcontent, watchGen, inq, dirDeleted, started, evLock, queue, active, fsvars, wvars, stopping>>
-MLoop == MTick \/ MCheck \/ MPrep \/ MReg \/ MList \/ MScanRead \/ MScanSched \/ MScanDone \/ MCtorDone \/ MSwap \/ MApply \/ MRun
+MLoop == MTick \/ MCheck \/ MPrep \/ MReg \/ MRegDone \/ MRegGiveUp \/ MList \/ MScanRead \/ MScanSched \/ MScanDone \/ MCtorDone \/ MSwap \/ MApply \/ MRun
 MNext == MLoop \/ MStop \/ MJoined
 
 \* ---- properties
@@ -194,7 +201,7 @@ Settled == /\ inq = <<>> /\ wbuf = <<>> /\ wpc = "wait" /\ queue = <<>> /\ mbatc
            /\ (dirDeleted => dirGen = 0) /\ (~dirDeleted => watchGen = dirGen)
 ConvergedWhenSettled == Settled => active = Expected
 LockDiscipline == /\ (evLock = "w") = (wpc \in {"read", "take", "readfile", "sched", "schedrm", "dereg", "setdeleted", "unlock", "exit"})
-                  /\ (evLock = "m") = (mpc \in {"list", "scan", "scansched"})
+                  /\ (evLock = "m") = (mpc \in {"regd", "list", "scan", "scansched"})
 \* dot files never reach the engine
 NoDotActive == \A n \in DotNames : active[n] = None /\ \A i \in DOMAIN queue : queue[i].tag \notin DotNames
 =============================================================================
